@@ -101,6 +101,10 @@ func cmdBt(args []string) {
 		g := &bt.Gen{R: root.Fork(), P: prof}
 		progs = append(progs, g.Program())
 	}
+	if *out != "-" && *out != "" {
+		core.BreadcrumbPath = *out + ".current"
+		defer os.Remove(core.BreadcrumbPath)
+	}
 	rep := core.RunPrograms("bt/"+*scenario, *seed, progs, bt.Engines(*engines), bt.Accept)
 	rep.Exhaustive = exhaustive
 	if *replay == "" {
@@ -204,6 +208,10 @@ func cmdGcs(args []string) {
 			g := &gcs.Gen{R: root.Fork(), P: prof}
 			progs = append(progs, g.Program())
 		}
+	}
+	if *out != "-" && *out != "" {
+		core.BreadcrumbPath = *out + ".current"
+		defer os.Remove(core.BreadcrumbPath)
 	}
 	rep := core.RunPrograms("gcs/"+*scenario, *seed, progs, gcs.Stores(*stores), gcs.Accept)
 	rep.Exhaustive = exhaustive
